@@ -55,6 +55,16 @@ static void dest(void * p, void * priv)
          dec(p, cur->elem.size));
     memset(p, 0xDD, cur->elem.size);
 }
+/* header `samecb 1`: vectors with both callbacks get ONE function in both roles (the header allows it: "any or all
+ * may be NULL", nothing says they differ).  It tells its role from the slot: at or above the element count the
+ * vector had when the call started it is constructing, below it is destroying. */
+static int samecb;
+static size_t cb_oc;
+static void both(void * p, void * priv)
+{
+    const size_t idx = (size_t)(((uintptr_t)p - (uintptr_t)cur->elem.base) / cur->elem.size);
+    if (idx >= cb_oc) cons(p, priv); else dest(p, priv);
+}
 static int cmp(const void * a, const void * b, void * p)
 {
     (void)p;
@@ -122,6 +132,7 @@ static int do_clear(int a)
 {
     size_t oc = vec[a].count;
     cur = &vec[a];
+    cb_oc = oc;
     xlen = 0; xlog[0] = 0;
     ha_active = 1; cstl_vector_clear(cur); ha_active = 0;
     poison(cur, oc);
@@ -134,7 +145,7 @@ static void run_case(const struct h_case * c)
     int i, k, started = 0;
     struct { size_t e; int c, d; } shape[MAXV];
 
-    nvec = 0;
+    nvec = 0; samecb = 0;
     ha_reset();
     for (i = 0; i < c->nlines; i++) {
         const struct h_line * l = &c->lines[i];
@@ -159,15 +170,19 @@ static void run_case(const struct h_case * c)
             continue;
         }
         if (h_weq(l, 0, "failfrom")) { ha_fail_from = (long)h_int(l, 1); continue; }
+        if (h_weq(l, 0, "samecb")) { samecb = a; continue; }
         if (!started) {
-            for (k = 0; k < nvec; k++)
-                cstl_vector_init_complex(&vec[k], shape[k].e, shape[k].c ? cons : NULL,
-                                         shape[k].d ? dest : NULL, NULL);
+            for (k = 0; k < nvec; k++) {
+                const int same = samecb && shape[k].c && shape[k].d;
+                cstl_vector_init_complex(&vec[k], shape[k].e, same ? both : shape[k].c ? cons : NULL,
+                                         same ? both : shape[k].d ? dest : NULL, NULL);
+            }
             started = 1;
         }
         if (a < 0 || a >= nvec) { printf("precond\n"); return; }
         cur = &vec[a];
         oc = cur->count;
+        cb_oc = oc;
         xlen = 0; xlog[0] = 0;
         if (h_weq(l, 0, "reserve")) {
             ha_active = 1; cstl_vector_reserve(cur, (size_t)n); ha_active = 0;
